@@ -24,10 +24,19 @@ FLAVOURS_7 = [
     "an option or default: a changed default value, a flag ignored in one branch, two flags that interact, a flag applied twice, a keyword argument not forwarded to a helper",
     "Unicode and encodings: normalisation forms, case mapping that changes length or is context dependent, characters outside the BMP, bytes vs str twins, ascii-only assumptions in a regex class or a str method",
 ]
+FLAVOURS_8 = [
+    "a well-meant robustness change: extra cleaning of the input, a more tolerant pattern, a normalisation done earlier or twice, a guard against a rare crash - that changes the answer for inputs that were handled correctly",
+    "an interaction between two rules documented separately: two options, a platform-specific rule and the general one, two cleaning steps, a rule and its exception - right apart, wrong together",
+    "compatibility code: a python 2 / 3 branch, bytes and text twins, a fallback when an import or attribute is missing, a deprecated alias - where the fallback path silently differs",
+    "iteration and accumulation: a generator consumed twice, a list mutated while iterated, a shared mutable default, a result built in a different order, deduplication by the wrong key, an early break",
+    "the meaning of 'empty' and 'absent' at a boundary: '' vs None vs missing key vs '/' vs '?', empty label, empty segment, empty list of items, zero-length match of a regex",
+]
 if int(R) == 6:
     FLAVOURS = FLAVOURS_6
-if int(R) >= 7:
+if int(R) == 7:
     FLAVOURS = FLAVOURS_7
+if int(R) >= 8:
+    FLAVOURS = FLAVOURS_8
 TEMPLATE = open(os.path.join(os.path.dirname(os.path.abspath(__file__)), "seed_prompt_template.txt")).read()
 props = [json.loads(l) for l in open("/verif/properties.jsonl")]
 for i, p in enumerate(props):
